@@ -486,11 +486,18 @@ func (p *PayableOracle) SaidPayable(addr []byte) bool {
 
 type EpochNotifier struct {
 	Handlers []vmcommon.EpochSubscriberHandler
+	// NotifyAtRegistration: tell a newly registered handler the current epoch inside
+	// RegisterNotifyHandler, as the node's notifier (and the repository's own stub) does.
+	NotifyAtRegistration bool
+	Current              uint32
 }
 
 func (e *EpochNotifier) IsInterfaceNil() bool { return e == nil }
 func (e *EpochNotifier) RegisterNotifyHandler(h vmcommon.EpochSubscriberHandler) {
 	e.Handlers = append(e.Handlers, h)
+	if e.NotifyAtRegistration {
+		h.EpochConfirmed(e.Current, 0)
+	}
 }
 
 // Confirm notifies all handlers.
